@@ -2,6 +2,7 @@
 """Print the prompt given to a fresh seeding sub-agent for one property (only the property text + its worktree)."""
 import json, sys
 pid, wt, n = sys.argv[1], sys.argv[2], (sys.argv[3] if len(sys.argv) > 3 else "2")
+focus = sys.argv[4] if len(sys.argv) > 4 else ""
 p = [json.loads(l) for l in open("/verif/properties.jsonl") if json.loads(l)["id"] == pid][0]
 print(f"""You are helping to evaluate a verification effort for the open-source Python library Tangelo (quantum-chemistry workflows: circuits, simulators, qubit mappings, ansaetze, solvers). You have your own scratch git worktree of the repository at {wt} (work ONLY there; never touch /repo or /verif; do not read anything under /verif). The library's dependencies are installed in /venv; always run Python as `cd {wt} && PYTHONPATH={wt} OMP_NUM_THREADS=1 /venv/bin/python ...` and verify once that `import tangelo; tangelo.__file__` points into {wt}.
 
@@ -16,7 +17,7 @@ Your task: produce {n} DIFFERENT, independent, realistic changes (bugs a develop
   (1) BREAKS the property above,
   (2) still imports/compiles, and the library's existing test-suite still passes with it (run at least the test modules near the code you touch, e.g. `PYTHONPATH={wt} OMP_NUM_THREADS=1 /venv/bin/python -m pytest -q -p no:cacheprovider -x -n 4 tangelo/linq/tests` or the relevant `tangelo/**/tests` folder; tests that already fail without your change do not count),
   (3) needs something SPECIFIC to manifest — a particular multi-step sequence of operations, an unusual but legal input (e.g. a particular angle range, index pattern, operand order, option combination), a particular random draw, or two features used together — and is NOT exposed at once by ordinary use or by the simplest call of the function.
-Keep each change small (a few lines). Prefer variety: the {n} changes should touch different mechanisms/functions.
+Keep each change small (a few lines). Prefer variety: the {n} changes should touch different mechanisms/functions.{(" For this round, concentrate on this part of the property and the code behind it: " + focus) if focus else ""}
 
 For each change k = 1..{n} write, in {wt}/seed_out/k/ :
   - patch.diff : output of `git diff` for that change alone (apply it on a clean tree; revert with `git checkout -- tangelo` before making the next change),
